@@ -51,6 +51,18 @@ def run(chk):
     chk.cov["replayed_behaviours"] += len(rows)
     chk.cov["traces_validated_against_impl"] += len(rows)
     chk.sample({"direction": "A", "set_program": rows[len(rows) // 3]})
+    # IndicatorResult itself: construction from 0..6 values / signals (truncation to its capacity of 4) and its accessors
+    rr = tlc("MC_Result", "MC_Result.cfg", workers=1, timeout=300, tags=("RES",))
+    if rr.error or rr.violation:
+        raise ToolError("MC_Result: %s" % (rr.error or rr.violation))
+    chk.add_tlc("MC_Result.cfg", rr, {"what": "IndicatorResult::new on every (nv, ns) in 0..6 x 0..6"})
+    rrows = [p for t, p in rr.printed if t == "RES"]
+    rf = os.path.join(wd, "result_rows.ndjson")
+    write_ndjson(rf, rrows)
+    for m in lines_of(run_harness(yv, ["result-replay", rf])):
+        if m.get("kind") == "mismatch":
+            chk.finding(m["key"], {"stage": "A:result", "ctx": m.get("ctx")})
+    chk.cov["replayed_behaviours"] += len(rrows)
     # static vs dyn on EVERY configuration, valid or not (MC_IndParams: all one- and two-field deviations from the default
     # over boundary grids): validate, name, size, init Ok/Err, over on 0 / 1 / 6 candles
     ir = tlc("MC_IndParams", "MC_IndParams.cfg", workers=1, env={"CATALOG": cat}, timeout=1200)
